@@ -65,6 +65,11 @@ MUTS = {
     "m13_stateless_tests_dir_resolved_parent": [("src/linters/stateless_class/python_analyzer.py",
         "        \"/tests/\" in path_str\n",
         "        \"/tests/\" in path_str\n        or __import__(\"os\").path.realpath(path_str).rsplit(\"/\", 2)[-2] in (\"tests\", \"__tests__\")\n")],
+    # 14. pipeline (collection-pipeline): the linter's ignore list is applied to the resolved path (a parent called lib/ silences relative
+    #     spellings too; `**/mod.py` matches a top-level mod.py through the components above the project)
+    "m14_pipeline_ignore_on_resolved_path": [("src/linters/collection_pipeline/linter.py",
+        "        file_path = Path(context.file_path)\n        return any(self._matches_pattern(file_path, pattern) for pattern in config.ignore)\n",
+        "        file_path = Path(context.file_path).resolve()\n        return any(self._matches_pattern(file_path, pattern) for pattern in config.ignore)\n")],
 }
 
 for name, edits in MUTS.items():
